@@ -581,8 +581,7 @@ def pre40 (v4 : Bool) : Bytes :=
 
 /-- the header the reader must recover -/
 def hdrOf (streams : List Stream) (L : Layout) : Header :=
-  { version := if L.v4 then 4 else 3
-    sectorSize := L.ss
+  { sectorSize := L.ss
     dirLen := if L.v4 then nsect L.ss (dirBytes streams L).length else 0
     dirStart := chainStart L.main 0
     fatLen := L.nfat
@@ -629,9 +628,6 @@ theorem fromReader_layout (streams : List Stream) (L : Layout)
   have h32 : u16At (header512 streams L) 32 = 6 := by
     rw [header512_eq, u16At_append_left _ _ 32 (by rw [pre40_length]; omega)]
     cases L.v4 <;> rfl
-  have h26 : u16At (header512 streams L) 26 = if L.v4 then 4 else 3 := by
-    rw [header512_eq, u16At_append_left _ _ 26 (by rw [pre40_length]; omega)]
-    cases L.v4 <;> rfl
   have hdif : u32s ((header512 streams L).drop 76) = hdrDifat L := by
     rw [header512_eq, ← List.append_assoc, List.drop_left' (by simp [pre40_length, le32s_length, hdrFields])]
     exact u32s_le32s _ hd
@@ -645,7 +641,7 @@ theorem fromReader_layout (streams : List Stream) (L : Layout)
   unfold Header.fromReader
   have hl : ¬ (layoutCfb streams L).length < 512 := by
     unfold layoutCfb; simp only [List.length_append, hlen]; omega
-  simp only [hl, if_false, htake, hdrop, hsig, ne_eq, not_true_eq_false, h30, h32, h26]
+  simp only [hl, if_false, htake, hdrop, hsig, ne_eq, not_true_eq_false, h30, h32]
   simp only [f0, f1, f2, f5, f6, f7]
   rw [hdif]
   cases hv : L.v4
@@ -984,7 +980,7 @@ theorem fatId_spec (streams : List Stream) (L : Layout) (hv : ValidP streams L) 
 theorem loadFats_layout (streams : List Stream) (L : Layout) (hv : ValidP streams L) :
     ∀ (m a : Nat) (s : Sectors) (rd : Bytes), s.data ++ rd = mainBody streams L → s.size = L.ss →
       (∀ j, j < min a L.nfat → (fatIdAt L j + 1) * L.ss ≤ s.data.length) →
-      ∃ s' rd', loadFats ((List.range' a m).map (fatIdAt L)) s rd (min a L.nfat * L.perFat) =
+      ∃ s' rd', loadFats ((List.range' a m).map (fatIdAt L)) s rd (min a L.nfat * L.perFat) (L.nfat - min a L.nfat) =
           .ok (((List.range' a m).map fun j => if j < L.nfat then fatRow L j else []).flatten, s', rd') ∧
         s'.data ++ rd' = mainBody streams L ∧ s'.size = L.ss := by
   intro m
@@ -1036,9 +1032,11 @@ theorem loadFats_layout (streams : List Stream) (L : Layout) (hv : ValidP stream
       have hchk : ¬ ((a * L.perFat + L.perFat) * 4 > (s.get (fatIdAt L a) rd).2.1.data.length) := by
         rcases ss_cases L with ⟨h1, h2⟩ | ⟨h1, h2⟩ <;> rw [h1] at hcnt <;> rw [h2] <;> omega
       have hacc : a * L.perFat + L.perFat = (a + 1) * L.perFat := by rw [Nat.add_mul, Nat.one_mul]
-      rw [hmin' , ← hacc] at he
+      have hn : L.nfat - a = (L.nfat - (a + 1)) + 1 := by omega
+      rw [hmin', ← hacc] at he
       unfold loadFats
-      simp only [hd, if_true, hg1, hu, hrow, hmin, hchk, if_false, he, ha]
+      simp only [hd, if_true, hmin, hn]
+      simp only [hg1, hu, hrow, hchk, if_false, he, ha, if_true]
     · have hmin : min a L.nfat = L.nfat := by omega
       have hmin' : min (a + 1) L.nfat = L.nfat := by omega
       obtain ⟨s', rd', he, hi', hs'⟩ := ih (a + 1) s rd hinv hsz (by rw [hmin']; rw [hmin] at hcov; exact hcov)
@@ -1804,7 +1802,7 @@ theorem new_layout (streams : List Stream) (L : Layout) (hv : ValidP streams L) 
   rw [hd0] at e2
   obtain ⟨s2, rd2, e3, i3, z3⟩ := loadFats_layout streams L hv (109 + L.ndif * (L.perFat - 1)) 0 s1 rd1 i2 z2
     (by intro j hj; simp at hj)
-  simp only [Nat.zero_min, Nat.zero_mul] at e3
+  simp only [Nat.zero_min, Nat.zero_mul, Nat.sub_zero] at e3
   have hdN' : difatUpTo L L.ndif = (List.range' 0 (109 + L.ndif * (L.perFat - 1))).map (fatIdAt L) := by
     simp [difatUpTo, List.range_eq_range']
   rw [← hdN', fat_rows_all L _ hv.nfat_le] at e3
@@ -2223,53 +2221,59 @@ theorem difatLoop_fuel : ∀ (fuel id : Nat) (difat : List Nat) (s : Sectors) (r
     · simp
 
 
-theorem loadFats_clean (ids : List Nat) (s : Sectors) (rd : Bytes) (acc : Nat) :
-    (∀ m, loadFats ids s rd acc ≠ .panic m) ∧ loadFats ids s rd acc ≠ .outOfFuel := by
-  induction ids generalizing s rd acc with
+theorem loadFats_clean (ids : List Nat) (s : Sectors) (rd : Bytes) (acc n : Nat) :
+    (∀ m, loadFats ids s rd acc n ≠ .panic m) ∧ loadFats ids s rd acc n ≠ .outOfFuel := by
+  induction ids generalizing s rd acc n with
   | nil => simp [loadFats]
   | cons id ids ih =>
     unfold loadFats
     split
-    · dsimp only
-      split
+    · split
       · simp
-      · have := ih (s.get id rd).2.1 (s.get id rd).2.2 (acc + (u32s (s.get id rd).1).length)
-        split <;> simp_all
-    · exact ih s rd acc
+      · rename_i n'
+        dsimp only
+        split
+        · simp
+        · have := ih (s.get id rd).2.1 (s.get id rd).2.2 (acc + (u32s (s.get id rd).1).length) n'
+          split <;> simp_all
+    · exact ih s rd acc n
 
 /-- the allocation table never takes more room than what has been read of the file -/
-theorem loadFats_params : ∀ (ids : List Nat) (s : Sectors) (rd : Bytes) (acc : Nat)
-    (x : List Nat) (s' : Sectors) (rd' : Bytes), loadFats ids s rd acc = .ok (x, s', rd') →
+theorem loadFats_params : ∀ (ids : List Nat) (s : Sectors) (rd : Bytes) (acc n : Nat)
+    (x : List Nat) (s' : Sectors) (rd' : Bytes), loadFats ids s rd acc n = .ok (x, s', rd') →
     s'.size = s.size ∧ s'.data.length + rd'.length = s.data.length + rd.length ∧ s.data.length ≤ s'.data.length ∧
     (acc * 4 ≤ s.data.length → (acc + x.length) * 4 ≤ s'.data.length) := by
   intro ids
   induction ids with
   | nil =>
-    intro s rd acc x s' rd' h
+    intro s rd acc n x s' rd' h
     simp only [loadFats] at h
     injection h with h; injection h with h0 h; injection h with h1 h2; subst h0 h1 h2
     exact ⟨rfl, rfl, Nat.le_refl _, fun ha => by simpa using ha⟩
   | cons id ids ih =>
-    intro s rd acc x s' rd' h
+    intro s rd acc n x s' rd' h
     unfold loadFats at h
     split at h
-    · dsimp only at h
-      split at h
-      · cases h
-      · split at h
-        · rename_i rest s'' rd'' heq
-          injection h with h; injection h with h0 h; injection h with h1 h2
-          obtain ⟨p1, p2, p3, p4⟩ := ih _ _ _ _ _ _ heq
-          subst h0 h1 h2
-          refine ⟨p1.trans (Sectors.get_spec s id rd _ rfl).2.2, by rw [p2]; exact Sectors.get_conserve s id rd,
-            Nat.le_trans (Sectors.get_data_mono s id rd) p3, ?_⟩
-          intro _
-          have := p4 (by omega)
-          simp only [List.length_append]; omega
+    · split at h
+      · injection h with h; injection h with h0 h; injection h with h1 h2; subst h0 h1 h2
+        exact ⟨rfl, rfl, Nat.le_refl _, fun ha => by simpa using ha⟩
+      · dsimp only at h
+        split at h
         · cases h
-        · cases h
-        · cases h
-    · exact ih _ _ _ _ _ _ h
+        · split at h
+          · rename_i rest s'' rd'' heq
+            injection h with h; injection h with h0 h; injection h with h1 h2
+            obtain ⟨p1, p2, p3, p4⟩ := ih _ _ _ _ _ _ _ heq
+            subst h0 h1 h2
+            refine ⟨p1.trans (Sectors.get_spec s id rd _ rfl).2.2, by rw [p2]; exact Sectors.get_conserve s id rd,
+              Nat.le_trans (Sectors.get_data_mono s id rd) p3, ?_⟩
+            intro _
+            have := p4 (by omega)
+            simp only [List.length_append]; omega
+          · cases h
+          · cases h
+          · cases h
+    · exact ih _ _ _ _ _ _ _ h
 
 theorem chunksAux_len (n : Nat) : ∀ (f : Nat) (l : Bytes), ∀ x ∈ chunksAux n f l, x.length = n := by
   intro f
@@ -2362,14 +2366,14 @@ theorem new_clean (file : Bytes) (len : Nat) :
       obtain ⟨_, q1, _⟩ := difatLoop_params _ _ _ _ _ _ _ _ _ h2
       simp only [List.length_nil, Nat.zero_add] at q1
       simp only [Res.bind_ok]
-      have c3 := loadFats_clean difat s1 rd1 0
-      cases h3 : loadFats difat s1 rd1 0 with
+      have c3 := loadFats_clean difat s1 rd1 0 h.fatLen
+      cases h3 : loadFats difat s1 rd1 0 h.fatLen with
       | err e => simp
       | panic m => exact absurd h3 (c3.1 m)
       | outOfFuel => exact absurd h3 c3.2
       | ok v3 =>
         obtain ⟨fats, s2, rd2⟩ := v3
-        obtain ⟨_, q2, _, a2⟩ := loadFats_params _ _ _ _ _ _ _ h3
+        obtain ⟨_, q2, _, a2⟩ := loadFats_params _ _ _ _ _ _ _ _ h3
         have a2' := a2 (by omega)
         simp only [Nat.zero_add] at a2'
         simp only [Res.bind_ok]
@@ -2620,21 +2624,24 @@ theorem chainLoopCost_le (fats : List Nat) : ∀ (rem id : Nat) (s : Sectors) (r
 theorem getChainCost_le (s : Sectors) (start : Nat) (fats : List Nat) (rd : Bytes) :
     s.getChainCost start fats rd ≤ fats.length := chainLoopCost_le fats _ _ _ _ _
 
-theorem loadFatsCost_le : ∀ (ids : List Nat) (s : Sectors) (rd : Bytes) (acc : Nat),
-    loadFatsCost ids s rd acc ≤ ids.length := by
+theorem loadFatsCost_le : ∀ (ids : List Nat) (s : Sectors) (rd : Bytes) (acc n : Nat),
+    loadFatsCost ids s rd acc n ≤ ids.length := by
   intro ids
   induction ids with
-  | nil => intro s rd acc; simp [loadFatsCost]
+  | nil => intro s rd acc n; simp [loadFatsCost]
   | cons id ids ih =>
-    intro s rd acc
+    intro s rd acc n
     unfold loadFatsCost
     split
-    · dsimp only
-      split
-      · simp
-      · have := ih (s.get id rd).2.1 (s.get id rd).2.2 (acc + (u32s (s.get id rd).1).length)
-        simp only [List.length_cons]; omega
-    · have := ih s rd acc; simp only [List.length_cons]; omega
+    · split
+      · omega
+      · rename_i n'
+        dsimp only
+        split
+        · simp
+        · have := ih (s.get id rd).2.1 (s.get id rd).2.2 (acc + (u32s (s.get id rd).1).length) n'
+          simp only [List.length_cons]; omega
+    · have := ih s rd acc n; simp only [List.length_cons]; omega
 
 theorem difatLoopCost_le : ∀ (fuel id : Nat) (difat : List Nat) (s : Sectors) (rd : Bytes) (count : Nat),
     difatLoopCost fuel id difat s rd count ≤ fuel := by
@@ -2732,15 +2739,15 @@ theorem newCost_linear (file : Bytes) : newCost file ≤ 2 * file.length + 110 :
       obtain ⟨k, hk1, hk2⟩ := difatLoop_length _ _ _ _ _ _ _ _ _ h2 (by simp)
       simp only [Nat.zero_mul, Nat.add_zero] at hk2
       dsimp only at hk1 hk2 q1
-      have hc2 := loadFatsCost_le difat s1 rd1 0
+      have hc2 := loadFatsCost_le difat s1 rd1 0 h.fatLen
       simp only
-      cases h3 : loadFats difat s1 rd1 0 with
+      cases h3 : loadFats difat s1 rd1 0 h.fatLen with
       | err e => simp only; omega
       | panic m => simp only; omega
       | outOfFuel => simp only; omega
       | ok v3 =>
         obtain ⟨fats, s2, rd2⟩ := v3
-        obtain ⟨_, q2, _, a2⟩ := loadFats_params _ _ _ _ _ _ _ h3
+        obtain ⟨_, q2, _, a2⟩ := loadFats_params _ _ _ _ _ _ _ _ h3
         have a2' := a2 (by omega)
         simp only [Nat.zero_add] at a2'
         have hc3 := getChainCost_le s2 h.dirStart fats rd2
